@@ -152,7 +152,7 @@ class SpecMixin:
     def spec_form(self, st, name, args, kwargs):
         if name == "raised":
             raise SpecError("raised() is only meaningful in raises clauses")
-        if name in ("set_has", "dq_len", "dq_maxlen", "dq_at", "dq_idx"):
+        if name in ("set_has", "dq_len", "dq_maxlen", "dq_at", "dq_idx", "dq_lo", "dq_hi", "dq_at_pos", "dq_pos_of"):
             yield st, self.spec_container_form(st, name, args)
             return
         if name in ("map_has", "map_get", "map_key0"):
